@@ -14,6 +14,8 @@ import WpModel.Model.ImageOrient
 import WpModel.Model.ReplacedPreferred
 import WpModel.Model.SvgCascade
 import WpModel.Model.PngChunks
+import WpModel.Model.CanvasBg
+import WpModel.Model.ImageId
 import WpModel.Gen.SvgNotInherited
 
 namespace Wp.Drive.Replaced
@@ -229,6 +231,18 @@ end
 def showTree (r : List ImageDedupe.Node × List ImageDedupe.Node) : String :=
   "(" ++ " ".intercalate (showNodes r.1) ++ ") (" ++ " ".intercalate (showNodes r.2) ++ ")"
 
+/-- `(image res colored hidden size clip rx ry origin pos fixed)`, image: `none` or `(pw ph)`. -/
+def bgStyle? : Sx → Option BgStyle
+  | .list [image, res, colored, hidden, size, clip, rx, ry, origin, pos, fixed] => do
+    let image ← match image with
+      | .atom "none" => some none
+      | .list [a, b] => do pure (some ((← a.rat?), (← b.rat?)))
+      | _ => none
+    pure ⟨image, ← colored.bool?, ← hidden.bool?, ← res.rat?, ← bgSize? size, BoxArea.ofCss (← clip.atom?),
+      Repeat.ofCss (← rx.atom?), Repeat.ofCss (← ry.atom?), BoxArea.ofCss (← origin.atom?), ← position? pos,
+      ← fixed.bool?⟩
+  | _ => none
+
 /-! ### commands -/
 
 def layerArgs (args : List Sx) : Option (Except Err LayerResult) :=
@@ -369,6 +383,30 @@ def handle (cmd : String) (args : List Sx) : Option String :=
     pure (match r with
       | .ok r => "ok " ++ " ".intercalate [showRat r.sx, showRat r.sy, showRat r.tx, showRat r.ty]
       | .error e => e.render)
+  | "canvasbg", [pg, .list [bt, br, bb, bl], pstyle, rg, rstyle, isHtml, body] => do
+    -- `layout_backgrounds`: which element's background becomes the canvas background, and its layers
+    let body ← match body with
+      | .atom "none" => some none
+      | .list [g, st] => do pure (some ((← geom? g), (← bgStyle? st)))
+      | _ => none
+    let r := layoutBackgrounds (← geom? pg) (← bt.rat?) (← br.rat?) (← bb.rat?) (← bl.rat?) (← bgStyle? pstyle)
+      (← geom? rg) (← bgStyle? rstyle) (← isHtml.bool?) body
+    pure (out (fun r => (match r.1 with | .root => "root" | .body => "body" | .nobody => "none") ++
+      String.join (r.2.map (fun l => " " ++ showLayer l))) r)
+  | "imgids", [.list reqs] => do
+    -- a sequence of image requests on one cache: classes of equal `RasterImage.id`, classes of identical objects
+    let keys ← allSome (fun r => match r with
+      | Sx.list [u, o, a, b, c] => do pure (ImageId.Key.mk (← u.nat?) (← o.nat?) (← a.nat?) (← b.nat?) (← c.nat?))
+      | _ => none) reqs
+    let show' (l : List Nat) : String := "(" ++ " ".intercalate (l.map toString) ++ ")"
+    pure ("ok " ++ show' (ImageId.idClasses keys) ++ " " ++ show' (ImageId.objectClasses keys))
+  | "imgres", [value, factor, exact] => do
+    -- the `image-resolution` validator on one dimension token: `none` factor = not a resolution; `exact` false:
+    -- the unit factor is not a dyadic number (dpi, dpcm), only the verdict is printed
+    let exact ← exact.bool?
+    pure (match imageResolutionValid (← value.rat?) (← optRat? factor) with
+      | none => "ok invalid"
+      | some r => if exact then "ok " ++ showRat r else "ok valid")
   | "pngdata", [.list bytes] => do
     -- `RasterImage._get_png_data` on the bytes of the file
     let bytes ← allSome Sx.nat? bytes
